@@ -1,5 +1,6 @@
 """C10 Output whitespace obeys line_endings and indent settings - static necessary conditions."""
 import r_nl
+import r_raw
 
 EXPLANATION = (
     "A-WHO + constant audit over stylua_lib in every feature configuration: TokenType::Whitespace is constructed only "
@@ -9,11 +10,17 @@ EXPLANATION = (
     "the two literals of line_ending_character (Unix -> LF, Windows -> CRLF, extracted as a decision table) and the "
     "LF of the CRLF->LF normalisation; create_newline_trivia takes its text from line_ending_character(config."
     "line_endings); the newline conversions inside block comments / long strings use it too; format_eof pops trailing "
-    "whitespace then appends one newline; line comments and the shebang are trimmed. Not decided: that no *input* "
-    "trivia token bypasses format_token (see DESIGN.md R-RAW), 'exactly one line ending at EOF' beyond the shape.")
+    "whitespace then appends one newline; line comments and the shebang are trimmed. (R-RAW) a summary-based taint "
+    "analysis over the whole library: token collections taken from *unformatted* nodes (receiver chain rooted in a "
+    "parameter that some caller binds to raw input; formatters, constructors and strip helpers give clean nodes) flow "
+    "through iterator adaptors, closures, vec!/push/extend, tuples and helper summaries; such tokens may reach "
+    "FormatTriviaType::Append/Replace or TokenReference::new only through format_token / load_token_trivia / a "
+    "format_* helper - otherwise a line comment of a CRLF file keeps its carriage return. Not decided: 'exactly one line "
+    "ending at EOF' beyond the shape; raw nodes returned whole by a formatter (the rule judges token collections, not "
+    "nodes rebuilt with with_*()).")
 ASSUMPTIONS = ["full_moon::TokenType::spaces/tabs produce exactly n spaces / tabs",
                "rustc MIR and Instance::try_resolve are trusted"]
 
 
 def run(ctx):
-    return [r_nl.rule_nl(ctx, "C10")]
+    return [r_nl.rule_nl(ctx, "C10"), r_raw.rule_raw(ctx, "C10")]
